@@ -162,9 +162,13 @@ HRan(e, s) ==
        THEN R(IF fn \in Range(top.todo) THEN "ok" ELSE "V_DispatchExact_callee_of_other_pattern_ran", s)
        ELSE R("drift_function_ran_in_unexpected_phase", s)
 
+\* The configuration of the algebra (wrapper, simp_func, codegen_symbolcls, cse, graded, signature, basis, ...) is a
+\* CONSTANT of the model (Kingdon.tla: Wrapper, ...): no call, succeeding or failing, may leave it changed.  e.cfg is ""
+\* or the name of the first field that differs from its value after creation.
 HReturn(e, s) ==
   LET st == Stack(s, e.t) IN
-  IF Len(st) = 1 /\ TopOf(st).phase \in {"done", "exec", "py", "lookup"}
+  IF e.cfg # "" THEN R("V_ConfigStable_call_changed_the_configuration_of_the_algebra", SetStack(s, e.t, <<>>))
+  ELSE IF Len(st) = 1 /\ TopOf(st).phase \in {"done", "exec", "py", "lookup"}
   THEN R("ok", SetStack(s, e.t, <<>>))
   ELSE R("drift_return_with_pending_frames", SetStack(s, e.t, <<>>))
 
@@ -172,7 +176,8 @@ HReturn(e, s) ==
 HRaise(e, s) ==
   LET st == Stack(s, e.t)
       half == {i \in DOMAIN st : st[i].phase = "gen" /\ Cached(s, st[i].op, st[i].pat)}
-  IN  R(IF half = {} THEN "ok" ELSE "V_FailAtomic_failing_generation_left_a_cache_entry", SetStack(s, e.t, <<>>))
+  IN  R(IF e.cfg # "" THEN "V_FailAtomic_failing_call_changed_the_configuration_of_the_algebra"
+        ELSE IF half = {} THEN "ok" ELSE "V_FailAtomic_failing_generation_left_a_cache_entry", SetStack(s, e.t, <<>>))
 
 Handle(e, s) ==
   CASE e.k = "Begin" -> HBegin(e, s)
